@@ -23,7 +23,8 @@ Record entry := E {
   e_kids : list (option id);            (* None: an empty BinaryNode slot *)
   e_name : str;
   e_attrs : list attr;
-  e_priv : option (list id * list (option id))
+  e_priv : option (list id * list (option id));
+  e_path : nat                          (* the node's (sep, path_name), interned like attribute contents; 0 for DAG nodes *)
 }.
 
 (* sg_walk: pre-order walk from the original root object through the public children getter *)
@@ -43,7 +44,8 @@ Definition priv_eqb := opt_eqb (fun a b : list id * list (option id) =>
 (* parent, children order, name, attributes (+ the private link fields) *)
 Definition entry_eqb (a b : entry) : bool :=
   list_eqb Nat.eqb (e_pars a) (e_pars b) && kids_eqb (e_kids a) (e_kids b) && str_eqb (e_name a) (e_name b)
-  && attrs_eqb (e_attrs a) (e_attrs b) && priv_eqb (e_priv a) (e_priv b).
+  && attrs_eqb (e_attrs a) (e_attrs b) && priv_eqb (e_priv a) (e_priv b)
+  && Nat.eqb (e_path a) (e_path b).
 
 (* "every node of the input tree has the same parent, children order, name and attributes" *)
 Definition sig_eqb (before after : sig) : bool :=
